@@ -73,7 +73,7 @@ __CPROVER_ensures(msg == NULL ==> (RV == NNG_EINVAL && g_id_calls == OLD(g_id_ca
 API_SOCK_LOOKUP_POST(msg != NULL)
 API_SYNC_COMMON(msg != NULL && API_SOCK_FOUND, g_sock->s_ref, VP_OP_SOCK_SEND, g_sock->s_data, g_sock->s_sndtimeo)
 /* the operation is handed the caller's message */
-__CPROVER_ensures((msg != NULL && API_SOCK_FOUND) ==> g_op_msg == msg)
+__CPROVER_ensures((msg != NULL && API_SOCK_FOUND) ==> __CPROVER_pointer_in_range_dfcc(msg, g_op_msg, msg))
 /* C03: rv == 0 <=> the protocol took the message (library owns it); otherwise it is still the caller's */
 __CPROVER_ensures(RV == 0 ? g_msg_taken == OLD(g_msg_taken) + 1 : g_msg_taken == OLD(g_msg_taken))
 __CPROVER_ensures(VP_HEAP_DELTA(0, 0))
@@ -89,9 +89,273 @@ __CPROVER_assigns(*msgp)
 API_SOCK_LOOKUP_POST(1)
 API_SYNC_COMMON(API_SOCK_FOUND, g_sock->s_ref, VP_OP_SOCK_RECV, g_sock->s_data, g_sock->s_rcvtimeo)
 /* success: the caller gets the message the completion carried; failure: *msgp untouched */
-__CPROVER_ensures(RV == 0 ==> (*msgp == g_rmsg && API_SOCK_FOUND && g_fin_rv == 0))
-__CPROVER_ensures(RV != 0 ==> *msgp == OLD(*msgp))
+__CPROVER_ensures(RV == 0 ==> (API_SOCK_FOUND && g_fin_rv == 0 && __CPROVER_pointer_in_range_dfcc(g_rmsg, *msgp, g_rmsg)))
+__CPROVER_ensures(RV != 0 ==> VP_SAME_PTR(*msgp))
 __CPROVER_ensures(VP_HEAP_DELTA(0, 0) && g_msg_taken == OLD(g_msg_taken))
+;
+
+/* ---- nng_send: the copying form --------------------------------------------------
+ * (this version of the library has no NNG_FLAG_ALLOC: nng_send always copies) */
+int nng_send(nng_socket s, const void *buf, size_t len, int flags)
+__CPROVER_requires(API_AIO_SYS_PRE && API_ENV_PRE && API_SOCK_PRE)
+__CPROVER_requires(__CPROVER_is_fresh(buf, len > 0 ? len : 1))
+/* ghost equation: g_b is the caller's byte number g_k */
+__CPROVER_requires(g_k < len ==> g_b == ((const uint8_t *) buf)[g_k])
+API_SYNC_ASSIGNS
+__CPROVER_assigns(g_sock != NULL: g_sock->s_ref)
+__CPROVER_ensures(VP_NO_LOCK_HELD && !g_pending && (g_sock != NULL ==> g_sock->s_ref == g_u32))
+/* C20 / C03: the temporary message is freed exactly once on every failure path (struct + buffer: whatever was obtained is given back), never on success */
+__CPROVER_ensures(RV != 0 ==> (g_alloc_ok - OLD(g_alloc_ok) == g_free_calls - OLD(g_free_calls) && g_msg_taken == OLD(g_msg_taken)))
+__CPROVER_ensures(RV == 0 ==> (VP_HEAP_DELTA(2, 0) && g_msg_taken == OLD(g_msg_taken) + 1))
+/* allocation failure is reported before anything else happens */
+__CPROVER_ensures(g_id_calls == OLD(g_id_calls) ==> RV == NNG_ENOMEM)
+/* success: the library owns a message that carries exactly the caller's bytes */
+__CPROVER_ensures(RV == 0 ==> (API_MLEN(g_op_msg) == len && g_op_msg->m_header_len == 0 && (g_k < len ==> API_MBODY(g_op_msg)[g_k] == g_b)))
+/* C15 and the result mapping are those of nng_sendmsg */
+__CPROVER_ensures((g_id_calls != OLD(g_id_calls) && API_SOCK_FOUND) ==> (g_op_calls == OLD(g_op_calls) + 1 && g_op_kind == VP_OP_SOCK_SEND && RV == API_MAP_RV(flags) && g_op_timeout == (API_NB(flags) ? NNG_DURATION_ZERO : g_sock->s_sndtimeo)))
+__CPROVER_ensures((g_id_calls != OLD(g_id_calls) && !API_SOCK_FOUND) ==> (RV == ((g_sock == NULL || g_sock->s_closed) ? NNG_ECLOSED : NNG_EBUSY) && g_op_calls == OLD(g_op_calls)))
+;
+
+/* ---- nng_recv: the copying form --------------------------------------------------- */
+int nng_recv(nng_socket s, void *buf, size_t *szp, int flags)
+__CPROVER_requires(API_AIO_SYS_PRE && API_ENV_PRE && API_SOCK_PRE)
+__CPROVER_requires(__CPROVER_is_fresh(szp, sizeof(*szp)) && __CPROVER_is_fresh(buf, *szp > 0 ? *szp : 1) && API_MSG_PRE(g_rmsg))
+/* ghost equations: g_b is message byte g_k, g_hb is the caller's buffer byte g_j */
+__CPROVER_requires((g_k < API_MLEN(g_rmsg) ==> g_b == API_MBODY(g_rmsg)[g_k]) && (g_j < *szp ==> g_hb == ((uint8_t *) buf)[g_j]))
+API_SYNC_ASSIGNS
+__CPROVER_assigns(g_sock != NULL: g_sock->s_ref)
+__CPROVER_assigns(*szp, __CPROVER_object_whole(buf), *g_rmsg)
+__CPROVER_frees(g_rmsg, g_rmsg->m_body.ch_buf)
+__CPROVER_ensures(VP_NO_LOCK_HELD && !g_pending && (g_sock != NULL ==> g_sock->s_ref == g_u32))
+__CPROVER_ensures(RV == 0 ==> (API_SOCK_FOUND && g_fin_rv == 0))
+__CPROVER_ensures(API_SOCK_FOUND ==> (g_op_calls == OLD(g_op_calls) + 1 && g_op_kind == VP_OP_SOCK_RECV && RV == API_MAP_RV(flags) && g_op_timeout == (API_NB(flags) ? NNG_DURATION_ZERO : g_sock->s_rcvtimeo)))
+/* success: the real size is reported, min(size, capacity) bytes are copied, the rest of the buffer is untouched */
+__CPROVER_ensures(RV == 0 ==> *szp == OLD(API_MLEN(g_rmsg)))
+__CPROVER_ensures((RV == 0 && g_k < OLD(API_MLEN(g_rmsg)) && g_k < OLD(*szp)) ==> ((uint8_t *) buf)[g_k] == g_b)
+__CPROVER_ensures((RV == 0 && g_j >= OLD(API_MLEN(g_rmsg)) && g_j < OLD(*szp)) ==> ((uint8_t *) buf)[g_j] == g_hb)
+/* ... and the message is released exactly once (the last reference frees struct + buffer, a shared one is only dropped) */
+__CPROVER_ensures((RV == 0 && OLD(g_rmsg->m_refcnt.v) == 1) ==> VP_HEAP_DELTA(0, 2))
+__CPROVER_ensures((RV == 0 && OLD(g_rmsg->m_refcnt.v) > 1) ==> (VP_HEAP_DELTA(0, 0) && g_rmsg->m_refcnt.v == OLD(g_rmsg->m_refcnt.v) - 1))
+/* failure: size and buffer untouched, nothing freed */
+__CPROVER_ensures(RV != 0 ==> (*szp == OLD(*szp) && VP_HEAP_DELTA(0, 0) && (g_j < *szp ==> ((uint8_t *) buf)[g_j] == g_hb)))
+;
+
+/* ---- nng_ctx_sendmsg / nng_ctx_recvmsg ----------------------------------------- */
+int nng_ctx_sendmsg(nng_ctx cid, nng_msg *msg, int flags)
+__CPROVER_requires(API_AIO_SYS_PRE && API_ENV_PRE && API_CTX_PRE)
+__CPROVER_requires(msg == NULL || API_MSG_PRE(msg))
+API_SYNC_ASSIGNS
+__CPROVER_assigns(g_ctx != NULL: g_ctx->c_ref)
+__CPROVER_ensures(msg == NULL ==> (RV == NNG_EINVAL && g_id_calls == OLD(g_id_calls)))
+API_CTX_LOOKUP_POST(msg != NULL)
+API_SYNC_COMMON(msg != NULL && API_CTX_FOUND, g_ctx->c_ref, VP_OP_CTX_SEND, g_ctx->c_data, g_ctx->c_sndtimeo)
+__CPROVER_ensures((msg != NULL && API_CTX_FOUND) ==> __CPROVER_pointer_in_range_dfcc(msg, g_op_msg, msg))
+__CPROVER_ensures(RV == 0 ? g_msg_taken == OLD(g_msg_taken) + 1 : g_msg_taken == OLD(g_msg_taken))
+__CPROVER_ensures(VP_HEAP_DELTA(0, 0))
+;
+int nng_ctx_recvmsg(nng_ctx cid, nng_msg **msgp, int flags)
+__CPROVER_requires(API_AIO_SYS_PRE && API_ENV_PRE && API_CTX_PRE)
+__CPROVER_requires(__CPROVER_is_fresh(msgp, sizeof(*msgp)) && API_MSG_PRE(g_rmsg))
+API_SYNC_ASSIGNS
+__CPROVER_assigns(g_ctx != NULL: g_ctx->c_ref)
+__CPROVER_assigns(*msgp)
+API_CTX_LOOKUP_POST(1)
+API_SYNC_COMMON(API_CTX_FOUND, g_ctx->c_ref, VP_OP_CTX_RECV, g_ctx->c_data, g_ctx->c_rcvtimeo)
+__CPROVER_ensures(RV == 0 ==> (API_CTX_FOUND && g_fin_rv == 0 && __CPROVER_pointer_in_range_dfcc(g_rmsg, *msgp, g_rmsg)))
+__CPROVER_ensures(RV != 0 ==> VP_SAME_PTR(*msgp))
+__CPROVER_ensures(VP_HEAP_DELTA(0, 0) && g_msg_taken == OLD(g_msg_taken))
+;
+
+/* ======================================================================
+ * socket.c: the functions the wrappers rest on
+ * ==================================================================== */
+
+/* an aio as the wrappers hand it down: nothing in flight */
+#define API_AIO_PRE(aio)                                                                                   \
+	(__CPROVER_is_fresh((aio), sizeof(nni_aio)) && __CPROVER_is_fresh((aio)->a_expire_q, sizeof(nni_aio_expire_q)) && \
+	    ((aio)->a_skipped_callback == NULL || (__CPROVER_is_fresh((aio)->a_skipped_callback, sizeof(bool)) && !*(aio)->a_skipped_callback)) && \
+	    (aio)->a_cancel_fn == NULL && !(aio)->a_abort && (aio)->a_timeout >= NNG_DURATION_DEFAULT)
+
+/* what the model operation leaves behind (environment, restated so that callers of the contract can use it) */
+#define API_OP_POST(aio, SENDKIND)                                                                         \
+__CPROVER_ensures(g_fin_calls == OLD(g_fin_calls) + 1)                                                     \
+__CPROVER_ensures(aio->a_result == (nng_err) g_fin_rv)                                                     \
+/* completed inside the call <=> the skip flag (if armed) was set; the flag is disarmed either way; nothing left to cancel once completed */ \
+__CPROVER_ensures(aio->a_skipped_callback == NULL && aio->a_cancel_fn == NULL)                             \
+__CPROVER_ensures(OLD(aio->a_skipped_callback) != NULL ==> *OLD(aio->a_skipped_callback) == g_op_sync)    \
+/* an operation that cannot complete in the call goes through nni_aio_start: with timeout zero it is refused at once (NNG_ETIMEDOUT), never left pending */ \
+__CPROVER_ensures((!g_op_sync && !OLD(aio->a_stop) && !aio->a_expire_q->eq_stop && !aio->a_use_expire && g_op_timeout == NNG_DURATION_ZERO) ==> (g_fin_rv == (int) NNG_ETIMEDOUT && !g_pending)) \
+__CPROVER_ensures(g_pending ==> (!g_op_sync && (aio->a_use_expire || g_op_timeout != NNG_DURATION_ZERO)))  \
+__CPROVER_ensures(g_op_sync ==> (!g_pending && g_fin_rv == g_r))                                           \
+__CPROVER_ensures((SENDKIND) ==> ((g_fin_rv == 0) ? (aio->a_msg == NULL && g_msg_taken == OLD(g_msg_taken) + 1) : (aio->a_msg == OLD(aio->a_msg) && g_msg_taken == OLD(g_msg_taken)))) \
+__CPROVER_ensures(!(SENDKIND) ==> ((g_fin_rv == 0) ? aio->a_msg == g_rmsg : aio->a_msg == OLD(aio->a_msg)))
+
+#define API_DISPATCH_CONTRACT(OBJPRE, BIND, REF, KIND, DATA, TMO, SENDKIND)                                           \
+__CPROVER_requires(API_ENV_PRE && (OBJPRE) && (BIND) && API_AIO_PRE(aio) && ((SENDKIND) || g_rmsg != NULL))                                            \
+__CPROVER_assigns(g_api)                                                                              \
+__CPROVER_assigns(aio->a_timeout, aio->a_result, aio->a_msg, aio->a_cancel_fn, aio->a_cancel_arg, aio->a_skipped_callback, aio->a_stop, aio->a_abort) \
+__CPROVER_assigns(aio->a_skipped_callback != NULL: *aio->a_skipped_callback)                               \
+/* exactly one protocol operation: the right slot, the protocol's private data, this aio, no lock held */   \
+__CPROVER_ensures(g_op_calls == OLD(g_op_calls) + 1 && g_op_kind == (KIND) && g_op_data == (DATA) && g_op_aio == aio && g_op_unlocked) \
+/* C15: NNG_DURATION_DEFAULT is replaced by the configured timeout, any explicit value (zero, infinite, positive) is kept */ \
+__CPROVER_ensures(OLD(aio->a_timeout) == NNG_DURATION_DEFAULT ==> g_op_timeout == (TMO))                   \
+__CPROVER_ensures(OLD(aio->a_timeout) != NNG_DURATION_DEFAULT ==> g_op_timeout == OLD(aio->a_timeout))     \
+__CPROVER_ensures(g_op_use_expire == aio->a_use_expire && g_op_msg == OLD(aio->a_msg) && g_op_ref == (REF))                     \
+/* environment bookkeeping: this aio is now "the aio under study" of the aio.c stubs */                     \
+__CPROVER_ensures(g_self == aio && g_exp_node == &aio->a_expire_node && g_prov_node == &aio->a_prov_node && g_eq_list == &aio->a_expire_q->eq_list && g_eq_mtx == &aio->a_expire_q->eq_mtx && g_eq_cv == &aio->a_expire_q->eq_cv) \
+__CPROVER_ensures(g_task_addr == OLD(g_task_addr) && g_task_init == OLD(g_task_init) && g_task_fini == OLD(g_task_fini) && g_task_wait == OLD(g_task_wait) && g_blocked_waits == OLD(g_blocked_waits) && g_exp_on == OLD(g_exp_on) && g_id_calls == OLD(g_id_calls) && g_free_calls == OLD(g_free_calls) && g_alloc_ok == OLD(g_alloc_ok))                     \
+API_OP_POST(aio, SENDKIND)
+
+void nni_sock_send(nni_sock *sock, nni_aio *aio)
+API_DISPATCH_CONTRACT(API_SOCK_OK(sock), __CPROVER_pointer_in_range_dfcc(sock, g_sock, sock), sock->s_ref, VP_OP_SOCK_SEND, sock->s_data, sock->s_sndtimeo, 1);
+void nni_sock_recv(nni_sock *sock, nni_aio *aio)
+API_DISPATCH_CONTRACT(API_SOCK_OK(sock), __CPROVER_pointer_in_range_dfcc(sock, g_sock, sock), sock->s_ref, VP_OP_SOCK_RECV, sock->s_data, sock->s_rcvtimeo, 0);
+void nni_ctx_send(nni_ctx *ctx, nni_aio *aio)
+API_DISPATCH_CONTRACT(API_CTX_OK(ctx), __CPROVER_pointer_in_range_dfcc(ctx, g_ctx, ctx), ctx->c_ref, VP_OP_CTX_SEND, ctx->c_data, ctx->c_sndtimeo, 1);
+void nni_ctx_recv(nni_ctx *ctx, nni_aio *aio)
+API_DISPATCH_CONTRACT(API_CTX_OK(ctx), __CPROVER_pointer_in_range_dfcc(ctx, g_ctx, ctx), ctx->c_ref, VP_OP_CTX_RECV, ctx->c_data, ctx->c_rcvtimeo, 0);
+
+/* ---- holds ------------------------------------------------------------------ */
+int nni_sock_find(nni_sock **sockp, uint32_t id)
+__CPROVER_requires(VP_NO_LOCK_HELD && (g_mtx_a == NULL || g_mtx_a == &sock_lk) && API_SOCK_PRE && __CPROVER_is_fresh(sockp, sizeof(*sockp)))
+__CPROVER_ensures(g_mtx_a == &sock_lk && g_mtx_b == OLD(g_mtx_b))
+__CPROVER_assigns(g_id_calls, g_id_key, g_id_map, VP_SYNC_GHOSTS)
+__CPROVER_assigns(API_SOCK_FOUND: *sockp)
+__CPROVER_assigns(g_sock != NULL: g_sock->s_ref)
+__CPROVER_ensures(VP_NO_LOCK_HELD && g_id_calls == OLD(g_id_calls) + 1 && g_id_key == (uint64_t) id && g_id_map == 1)
+__CPROVER_ensures(RV == (g_sock == NULL ? NNG_ECLOSED : (g_sock->s_closed ? NNG_ECLOSED : (g_sock->s_device ? NNG_EBUSY : 0))))
+/* a hold is taken exactly when the socket is handed out */
+__CPROVER_ensures(RV == 0 ==> (g_sock->s_ref == g_u32 + 1 && __CPROVER_pointer_in_range_dfcc(g_sock, *sockp, g_sock)))
+__CPROVER_ensures(RV != 0 ==> (g_sock != NULL ==> g_sock->s_ref == g_u32))
+;
+void nni_sock_rele(nni_sock *s)
+__CPROVER_requires(VP_NO_LOCK_HELD && (g_mtx_a == NULL || g_mtx_a == &sock_lk) && API_SOCK_OK(s))
+__CPROVER_ensures(g_mtx_a == &sock_lk && g_mtx_b == OLD(g_mtx_b))
+__CPROVER_assigns(g_close_wakes, VP_SYNC_GHOSTS, s->s_ref)
+__CPROVER_ensures(VP_NO_LOCK_HELD && s->s_ref == OLD(s->s_ref) - 1)
+/* the closer is woken exactly when it is waiting for this hold (woken under the global lock: asserted in the stub) */
+__CPROVER_ensures(g_close_wakes == OLD(g_close_wakes) + ((s->s_closed && s->s_ref < 2) ? 1 : 0))
+;
+int nni_ctx_find(nni_ctx **cp, uint32_t id)
+__CPROVER_requires(VP_NO_LOCK_HELD && (g_mtx_a == NULL || g_mtx_a == &sock_lk) && API_CTX_PRE && __CPROVER_is_fresh(cp, sizeof(*cp)))
+__CPROVER_ensures(g_mtx_a == &sock_lk && g_mtx_b == OLD(g_mtx_b))
+__CPROVER_assigns(g_id_calls, g_id_key, g_id_map, VP_SYNC_GHOSTS)
+__CPROVER_assigns(API_CTX_FOUND: *cp)
+__CPROVER_assigns(g_ctx != NULL: g_ctx->c_ref)
+__CPROVER_ensures(VP_NO_LOCK_HELD && g_id_calls == OLD(g_id_calls) + 1 && g_id_key == (uint64_t) id && g_id_map == 2)
+__CPROVER_ensures(RV == (API_CTX_FOUND ? 0 : NNG_ECLOSED))
+__CPROVER_ensures(RV == 0 ==> (g_ctx->c_ref == g_u32 + 1 && __CPROVER_pointer_in_range_dfcc(g_ctx, *cp, g_ctx)))
+__CPROVER_ensures(RV != 0 ==> (g_ctx != NULL ==> g_ctx->c_ref == g_u32))
+;
+/* nni_ctx_rele, context not closed (the only case the send/receive wrappers can be in: nni_ctx_find refuses a closed context) */
+void nni_ctx_rele(nni_ctx *ctx)
+__CPROVER_requires(VP_NO_LOCK_HELD && (g_mtx_a == NULL || g_mtx_a == &sock_lk) && API_CTX_OK(ctx) && !ctx->c_closed)
+__CPROVER_ensures(g_mtx_a == &sock_lk && g_mtx_b == OLD(g_mtx_b))
+__CPROVER_assigns(g_close_wakes, VP_SYNC_GHOSTS, ctx->c_ref)
+__CPROVER_ensures(VP_NO_LOCK_HELD && ctx->c_ref == OLD(ctx->c_ref) - 1 && g_close_wakes == OLD(g_close_wakes))
+;
+
+/* ======================================================================
+ * the asynchronous forms: the caller's aio (nothing in flight on it)
+ * ==================================================================== */
+#define API_XAIO_PRE(aio) (AIO_PRE0(aio) && AIO_IDLE(aio) && (aio)->a_timeout >= NNG_DURATION_DEFAULT && !g_pending)
+#define API_XAIO_ASSIGNS(aio)                                                                              \
+__CPROVER_assigns(API_GHOSTS)                                                                              \
+__CPROVER_assigns(aio->a_result, aio->a_count, aio->a_abort, aio->a_expire_ok, aio->a_sleep, aio->a_skipped_callback, aio->a_timeout, aio->a_msg, aio->a_cancel_fn, aio->a_cancel_arg, aio->a_stop, aio->a_expire, aio->a_use_expire, __CPROVER_object_upto(aio->a_outputs, sizeof(aio->a_outputs)))
+
+/* FOUND: hold granted; LOOKED: the id was looked up; HOLDOK: hold balance; KIND/DATA/TMO as above; SENDKIND: 1 for send */
+#define API_XAIO_POST(LOOKED, FOUND, REFNOW, KIND, DATA, TMO, SENDKIND)                                   \
+__CPROVER_ensures(VP_NO_LOCK_HELD)                                                                         \
+/* no hold: exactly one completion with the lookup's verdict, the protocol is not called, the message (send) is still attached */ \
+__CPROVER_ensures(((LOOKED) && !(FOUND)) ==> (g_dispatched == OLD(g_dispatched) + 1 && g_op_calls == OLD(g_op_calls) && aio->a_msg == OLD(aio->a_msg) && g_msg_taken == OLD(g_msg_taken) && !g_pending)) \
+/* hold: exactly one protocol operation, on this aio, while the hold is in place, outside every lock */     \
+__CPROVER_ensures((FOUND) ==> (g_op_calls == OLD(g_op_calls) + 1 && g_op_kind == (KIND) && g_op_data == (DATA) && g_op_aio == aio && g_op_unlocked && g_op_ref == (REFNOW) + 1 && g_op_msg == OLD(aio->a_msg))) \
+/* C15: the aio's own timeout decides; only NNG_DURATION_DEFAULT is replaced by the configured one */      \
+__CPROVER_ensures(((FOUND) && OLD(aio->a_timeout) == NNG_DURATION_DEFAULT) ==> g_op_timeout == (TMO))      \
+__CPROVER_ensures(((FOUND) && OLD(aio->a_timeout) != NNG_DURATION_DEFAULT) ==> g_op_timeout == OLD(aio->a_timeout)) \
+/* exactly one completion (delivered, or owed by the pending operation) */                                 \
+__CPROVER_ensures((FOUND) ==> (g_fin_calls == OLD(g_fin_calls) + 1 && g_dispatched == OLD(g_dispatched) + 1 && aio->a_result == (nng_err) g_fin_rv)) \
+/* C03: the message */                                                                                     \
+__CPROVER_ensures(((FOUND) && (SENDKIND)) ==> ((g_fin_rv == 0) ? (aio->a_msg == NULL && g_msg_taken == OLD(g_msg_taken) + 1) : (aio->a_msg == OLD(aio->a_msg) && g_msg_taken == OLD(g_msg_taken)))) \
+__CPROVER_ensures(((FOUND) && !(SENDKIND)) ==> ((g_fin_rv == 0) ? aio->a_msg == g_rmsg : aio->a_msg == OLD(aio->a_msg)))
+
+void nng_socket_send(nng_socket s, nng_aio *aio)
+__CPROVER_requires(API_XAIO_PRE(aio) && API_SOCK_PRE)
+API_XAIO_ASSIGNS(aio)
+__CPROVER_assigns(g_sock != NULL: g_sock->s_ref)
+/* no message: NNG_EINVAL, exactly one completion, nothing looked up */
+__CPROVER_ensures(OLD(aio->a_msg) == NULL ==> (aio->a_result == NNG_EINVAL && g_dispatched == OLD(g_dispatched) + 1 && g_id_calls == OLD(g_id_calls) && g_op_calls == OLD(g_op_calls) && aio->a_msg == NULL))
+__CPROVER_ensures(OLD(aio->a_msg) != NULL ==> (g_id_calls == OLD(g_id_calls) + 1 && g_id_key == (uint64_t) s.id && g_id_map == 1))
+__CPROVER_ensures((OLD(aio->a_msg) != NULL && !API_SOCK_FOUND) ==> aio->a_result == ((g_sock == NULL || g_sock->s_closed) ? NNG_ECLOSED : NNG_EBUSY))
+__CPROVER_ensures(g_sock != NULL ==> g_sock->s_ref == g_u32)
+API_XAIO_POST(OLD(aio->a_msg) != NULL, OLD(aio->a_msg) != NULL && API_SOCK_FOUND, g_sock->s_ref, VP_OP_SOCK_SEND, g_sock->s_data, g_sock->s_sndtimeo, 1)
+;
+void nng_socket_recv(nng_socket s, nng_aio *aio)
+__CPROVER_requires(API_XAIO_PRE(aio) && API_SOCK_PRE && g_rmsg != NULL)
+API_XAIO_ASSIGNS(aio)
+__CPROVER_assigns(g_sock != NULL: g_sock->s_ref)
+__CPROVER_ensures(g_id_calls == OLD(g_id_calls) + 1 && g_id_key == (uint64_t) s.id && g_id_map == 1)
+__CPROVER_ensures(!API_SOCK_FOUND ==> aio->a_result == ((g_sock == NULL || g_sock->s_closed) ? NNG_ECLOSED : NNG_EBUSY))
+__CPROVER_ensures(g_sock != NULL ==> g_sock->s_ref == g_u32)
+API_XAIO_POST(1, API_SOCK_FOUND, g_sock->s_ref, VP_OP_SOCK_RECV, g_sock->s_data, g_sock->s_rcvtimeo, 0)
+;
+void nng_ctx_send(nng_ctx cid, nng_aio *aio)
+__CPROVER_requires(API_XAIO_PRE(aio) && API_CTX_PRE)
+API_XAIO_ASSIGNS(aio)
+__CPROVER_assigns(g_ctx != NULL: g_ctx->c_ref)
+__CPROVER_ensures(OLD(aio->a_msg) == NULL ==> (aio->a_result == NNG_EINVAL && g_dispatched == OLD(g_dispatched) + 1 && g_id_calls == OLD(g_id_calls) && g_op_calls == OLD(g_op_calls) && aio->a_msg == NULL))
+__CPROVER_ensures(OLD(aio->a_msg) != NULL ==> (g_id_calls == OLD(g_id_calls) + 1 && g_id_key == (uint64_t) cid.id && g_id_map == 2))
+__CPROVER_ensures((OLD(aio->a_msg) != NULL && !API_CTX_FOUND) ==> aio->a_result == NNG_ECLOSED)
+__CPROVER_ensures(g_ctx != NULL ==> g_ctx->c_ref == g_u32)
+API_XAIO_POST(OLD(aio->a_msg) != NULL, OLD(aio->a_msg) != NULL && API_CTX_FOUND, g_ctx->c_ref, VP_OP_CTX_SEND, g_ctx->c_data, g_ctx->c_sndtimeo, 1)
+;
+void nng_ctx_recv(nng_ctx cid, nng_aio *aio)
+__CPROVER_requires(API_XAIO_PRE(aio) && API_CTX_PRE && g_rmsg != NULL)
+API_XAIO_ASSIGNS(aio)
+__CPROVER_assigns(g_ctx != NULL: g_ctx->c_ref)
+__CPROVER_ensures(g_id_calls == OLD(g_id_calls) + 1 && g_id_key == (uint64_t) cid.id && g_id_map == 2)
+__CPROVER_ensures(!API_CTX_FOUND ==> aio->a_result == NNG_ECLOSED)
+__CPROVER_ensures(g_ctx != NULL ==> g_ctx->c_ref == g_u32)
+API_XAIO_POST(1, API_CTX_FOUND, g_ctx->c_ref, VP_OP_CTX_RECV, g_ctx->c_data, g_ctx->c_rcvtimeo, 0)
+;
+
+/* ---- thin aio wrappers --------------------------------------------------------- */
+void nng_aio_set_timeout(nng_aio *aio, nni_duration when)
+__CPROVER_requires(__CPROVER_is_fresh(aio, sizeof(*aio)))
+__CPROVER_assigns(aio->a_timeout, aio->a_use_expire)
+/* a relative timeout replaces an absolute deadline given earlier */
+__CPROVER_ensures(aio->a_timeout == when && !aio->a_use_expire)
+;
+void nng_aio_set_expire(nng_aio *aio, nng_time when)
+__CPROVER_requires(__CPROVER_is_fresh(aio, sizeof(*aio)))
+__CPROVER_assigns(aio->a_expire, aio->a_use_expire)
+__CPROVER_ensures(aio->a_expire == when && aio->a_use_expire)
+;
+
+/* ======================================================================
+ * aio.c: set-up and tear-down of the wrappers' stack aio.  Enforced here
+ * against the real functions (units aio_init, aio_fini_done) so that the
+ * synchronous wrappers can use them by replacement (with the real bodies
+ * inline those units did not finish, see not_decided).
+ * ==================================================================== */
+void nni_aio_init(nni_aio *aio, nni_cb cb, void *arg)
+__CPROVER_requires(__CPROVER_is_fresh(aio, sizeof(*aio)) && API_AIO_SYS_PRE)
+__CPROVER_assigns(__CPROVER_object_whole(aio), g_task_init, g_busy, g_prepped, g_task_addr, g_self, g_exp_on, g_prov_on)
+/* a new aio: nothing in flight, no latches, no message, no deadline, default-infinite timeout, bound to the expire queue picked by nni_random */
+__CPROVER_ensures(aio->a_init && aio->a_cancel_fn == NULL && aio->a_cancel_arg == NULL && !aio->a_stop && !aio->a_abort && !aio->a_sleep && !aio->a_expiring && !aio->a_use_expire && aio->a_skipped_callback == NULL && aio->a_msg == NULL)
+__CPROVER_ensures(aio->a_expire == NNI_TIME_NEVER && aio->a_timeout == NNG_DURATION_INFINITE && aio->a_result == NNG_OK && aio->a_count == 0)
+__CPROVER_ensures(g_task_init == OLD(g_task_init) + 1 && g_task_addr == &aio->a_task && !g_exp_on && !g_prepped)
+__CPROVER_ensures(__CPROVER_pointer_in_range_dfcc(API_EQ, aio->a_expire_q, API_EQ))
+;
+/* nni_aio_fini of an aio whose operation has completed (the only state the wrappers may finalise it in) */
+void nni_aio_fini(nni_aio *aio)
+__CPROVER_requires(__CPROVER_is_fresh(aio, sizeof(*aio)) && __CPROVER_is_fresh(aio->a_expire_q, sizeof(nni_aio_expire_q)))
+__CPROVER_requires(aio->a_init && aio->a_cancel_fn == NULL && !aio->a_expiring)
+/* the completion was awaited: finalising an aio whose operation is still pending is an error of the caller */
+__CPROVER_requires(!g_pending && VP_NO_LOCK_HELD && (g_mtx_a == NULL || g_mtx_b == NULL || g_mtx_a == &aio->a_expire_q->eq_mtx || g_mtx_b == &aio->a_expire_q->eq_mtx))
+__CPROVER_requires(g_task_addr == &aio->a_task && g_exp_node == &aio->a_expire_node && g_eq_mtx == &aio->a_expire_q->eq_mtx)
+__CPROVER_assigns(aio->a_stop, aio->a_cancel_fn, aio->a_cancel_arg, g_exp_on, g_task_fini, g_cancel_at_wait, VP_SYNC_GHOSTS)
+__CPROVER_ensures(VP_NO_LOCK_HELD && aio->a_stop && aio->a_cancel_fn == NULL && g_task_fini == OLD(g_task_fini) + 1 && !g_exp_on)
 ;
 /* clang-format on */
 #endif
